@@ -152,7 +152,8 @@ AccountDiff(kind, outcome) ==
 -----------------------------------------------------------------------------
 (* C07, second half: the re-layouts of a skeleton.  A skeleton is the sequence of logical lines of a script,
    sk[i] = [d |-> nesting depth, hk |-> header kind or "", id |-> unique number, sps |-> <<spacing variants
-   the line's text has>>]; its canonical layout indents 4 spaces per level and has no extra line.
+   the line's text has>>, kind |-> name of the line's text template (harness/layout_rec.py)]; its canonical
+   layout indents 4 spaces per level and has no extra line.
    A re-layout is a set of deviations from the canonical layout, at most one per site:
      [w |-> "unit", at |-> header i, v |-> u]   the suite of header i is indented by u in {1,2,3,8, 0 = tab}
      [w |-> "gap",  at |-> g, v |-> code]       a line inserted after logical line g (g = 0: before the first):
